@@ -50,22 +50,23 @@ pub const PI_INV: [u8; 256] = {
 /// Coefficients of l in the order a15, a14, ..., a0 (= byte index 0, 1, ..., 15).
 pub const LC: [u8; 16] = [148, 32, 133, 16, 194, 192, 1, 251, 1, 192, 194, 16, 133, 32, 148, 1];
 
-/// Multiplication in GF(2^8) = GF(2)[x] / (x^8 + x^7 + x^6 + x + 1)   (0x1C3), schoolbook: carry-less product,
-/// then reduction of the degree 14..8 terms.
+/// Multiplication in GF(2^8) = GF(2)[x] / (x^8 + x^7 + x^6 + x + 1)   (0x1C3), schoolbook: carry-less product
+/// a(x) b(x), then reduction of the degree 14..8 terms (x^d = x^(d-8) (x^7 + x^6 + x + 1) mod p).
+/// Written without data-dependent branches on `b` and on the product (masks instead), so that with a constant
+/// coefficient `a` the symbolic execution sees a plain XOR network.
 pub const fn gf_mul(a: u8, b: u8) -> u8 {
     let mut p: u16 = 0;
     let mut i = 0;
     while i < 8 {
-        if (b >> i) & 1 == 1 {
-            p ^= (a as u16) << i;
+        if (a >> i) & 1 == 1 {
+            p ^= (b as u16) << i;
         }
         i += 1;
     }
     let mut d = 14;
     while d >= 8 {
-        if (p >> d) & 1 == 1 {
-            p ^= 0x1C3u16 << (d - 8);
-        }
+        let m = 0u16.wrapping_sub((p >> d) & 1); // all ones iff the degree-d term is present
+        p ^= (0x1C3u16 << (d - 8)) & m;
         d -= 1;
     }
     p as u8
@@ -90,12 +91,46 @@ pub fn s_inv(a: &Block) -> Block {
     o
 }
 
-pub const fn l_func(a: &Block) -> u8 {
+/// l as the standard writes it: sum_j c_j * a_j in the field.
+pub const fn l_func_plain(a: &Block) -> u8 {
     let mut x = 0u8;
     let mut i = 0;
     while i < 16 {
         x ^= gf_mul(LC[i], a[i]);
         i += 1;
+    }
+    x
+}
+
+/// c_j * x^i mod p(x) for the sixteen coefficients of l and i = 0..7, computed from the field definition.
+pub const LC_XPOW: [[u8; 8]; 16] = {
+    let mut t = [[0u8; 8]; 16];
+    let mut j = 0;
+    while j < 16 {
+        let mut i = 0;
+        while i < 8 {
+            t[j][i] = gf_mul(LC[j], 1u8 << i);
+            i += 1;
+        }
+        j += 1;
+    }
+    t
+};
+
+/// The same l with every product expanded by distributivity over the bits of a_j = sum_i a_{j,i} x^i:
+/// c_j * a_j = sum_i a_{j,i} (c_j * x^i).  (Equal to `l_func_plain` -- checked exhaustively by the native validation;
+/// this form costs the symbolic execution 128 mask-and-xor steps instead of 240 loop iterations with branches.)
+pub const fn l_func(a: &Block) -> u8 {
+    let mut x = 0u8;
+    let mut j = 0;
+    while j < 16 {
+        let mut i = 0;
+        while i < 8 {
+            let m = 0u8.wrapping_sub((a[j] >> i) & 1); // all ones iff bit i of a_j is set
+            x ^= LC_XPOW[j][i] & m;
+            i += 1;
+        }
+        j += 1;
     }
     x
 }
@@ -123,7 +158,9 @@ pub const fn r_inv(a: &Block) -> Block {
     t[15] = x;
     t
 }
-pub const fn l(a: &Block) -> Block {
+/// L = R^16 and L^-1 = (R^-1)^16, octet by octet as the standard writes them (used by the native validation to
+/// cross-check the word formulation below).
+pub const fn l_octets(a: &Block) -> Block {
     let mut v = *a;
     let mut i = 0;
     while i < 16 {
@@ -132,7 +169,7 @@ pub const fn l(a: &Block) -> Block {
     }
     v
 }
-pub const fn l_inv(a: &Block) -> Block {
+pub const fn l_inv_octets(a: &Block) -> Block {
     let mut v = *a;
     let mut i = 0;
     while i < 16 {
@@ -140,6 +177,79 @@ pub const fn l_inv(a: &Block) -> Block {
         i += 1;
     }
     v
+}
+
+// ---- the same maps on the 128-bit word a = a15 || ... || a0 read as a number (a15 most significant).
+// l is GF(2)-linear in the 128 bits of a, so bit k of l(a) is the parity of (a AND M_k) for a constant mask M_k:
+// bit 8 (15 - j) + i of M_k is bit k of c_j * x^i.  The masks are computed from the field definition (LC_XPOW).
+// This costs the symbolic execution ~90 word operations per R instead of ~1000 octet operations.
+
+pub const L_MASK: [u128; 8] = {
+    let mut m = [0u128; 8];
+    let mut k = 0;
+    while k < 8 {
+        let mut j = 0;
+        while j < 16 {
+            let mut i = 0;
+            while i < 8 {
+                if (LC_XPOW[j][i] >> k) & 1 == 1 {
+                    m[k] |= 1u128 << (8 * (15 - j) + i);
+                }
+                i += 1;
+            }
+            j += 1;
+        }
+        k += 1;
+    }
+    m
+};
+/// XOR of all 128 bits.
+pub const fn parity128(x: u128) -> u128 {
+    let x = x ^ (x >> 64);
+    let x = x ^ (x >> 32);
+    let x = x ^ (x >> 16);
+    let x = x ^ (x >> 8);
+    let x = x ^ (x >> 4);
+    let x = x ^ (x >> 2);
+    let x = x ^ (x >> 1);
+    x & 1
+}
+pub const fn l_func_word(a: u128) -> u128 {
+    (parity128(a & L_MASK[0]))
+        | (parity128(a & L_MASK[1]) << 1)
+        | (parity128(a & L_MASK[2]) << 2)
+        | (parity128(a & L_MASK[3]) << 3)
+        | (parity128(a & L_MASK[4]) << 4)
+        | (parity128(a & L_MASK[5]) << 5)
+        | (parity128(a & L_MASK[6]) << 6)
+        | (parity128(a & L_MASK[7]) << 7)
+}
+/// R(a15 || ... || a0) = l(a) || a15 || ... || a1
+pub const fn r_word(a: u128) -> u128 {
+    (l_func_word(a) << 120) | (a >> 8)
+}
+/// R^-1(a15 || ... || a0) = a14 || ... || a0 || l(a14, ..., a0, a15)
+pub const fn r_inv_word(a: u128) -> u128 {
+    let t = (a << 8) | (a >> 120);
+    (t & !0xFFu128) | l_func_word(t)
+}
+pub const fn l(a: &Block) -> Block {
+    let mut v = u128::from_be_bytes(*a);
+    let mut i = 0;
+    while i < 16 {
+        v = r_word(v);
+        i += 1;
+    }
+    v.to_be_bytes()
+}
+pub const fn l_inv(a: &Block) -> Block {
+    let mut v = u128::from_be_bytes(*a);
+    let mut i = 0;
+    while i < 16 {
+        v = r_inv_word(v);
+        i += 1;
+    }
+    v.to_be_bytes()
 }
 pub fn x(k: &Block, a: &Block) -> Block {
     let mut o = [0u8; 16];
